@@ -105,7 +105,12 @@ macro_rules! rdata_enum {
                     return Err(crate::SimpleDnsError::InsufficientData);
                 }
 
-                parse_rdata(&data[..*position + rdatalen], position, rdatatype)
+                let end = *position + rdatalen;
+                let rdata = parse_rdata(&data[..end], position, rdatatype)?;
+
+                // a typed content shorter than RDLENGTH must not leave the cursor inside this record
+                *position = end;
+                Ok(rdata)
             }
 
             fn write_to<T: std::io::Write>(
